@@ -185,8 +185,10 @@ def _ex_prune(p, rule):
     if p["lead"] == "static" and p["rt"] != "as-declared":
         return True
     xs, es, ys = _EX_CASES[p["case"]]
-    if p["lead"] != "static" and (not ys or not es or p["case"] == "size0"):
+    if p["lead"] != "static" and p["case"] not in ("y-supplies", "x1-y-supplies", "x1-e2-y1"):
         return True
+    if p["lead"] == "named-same" and p["rt"] != "as-declared":
+        return True   # feeding y with another leading size would contradict the declared equality of the two dims
     if op.startswith("Bitwise") and p["opset"] < 18:
         return True
     if p["dtype"] == "f32" and op == "Mod" and p["attrs"] == 0:
@@ -278,14 +280,24 @@ def _ex_near(p, rule):
 
 
 def _ex_klass(nd, p, rule):
+    if not nd and _ex_parse(rule) == ("PRelu", 0):
+        return "slope-not-unidirectionally-broadcastable-to-x"
+    if nd.get("lead") == "unnamed" and set(nd) <= {"lead", "rt", "ssrc", "case"}:
+        return "lead=unnamed-dims-compared-equal"
+    if str(nd.get("case", "")).startswith("lead-ones") and set(nd) <= {"case"}:
+        return "case=expand-target-rank>both-operand-ranks"
     if "attrs" in nd and set(nd) <= {"attrs", "dtype", "case"}:
         op, _ = _ex_parse(rule)
         return "attr=" + ",".join(f"{k}:{v}" for k, v in _EX_OPS[op][1][p["attrs"]].items())
     return None
 
 
-S.register(Space("expand_before_binary_op", _ex_dims, _ex_build, near=_ex_near, prune=_ex_prune, klass=_ex_klass),
-           prefixes=["expand_before_binary_op_rules/"])
+_EX_SPACE = S.register(Space("expand_before_binary_op", _ex_dims, _ex_build, near=_ex_near, prune=_ex_prune, klass=_ex_klass),
+                       prefixes=["expand_before_binary_op_rules/"])
+# the 38 rules are instances of two classes sharing one check function: a class of failure that does not depend
+# on the operator is reported once for the whole exported rule set
+_EX_SPACE.component = lambda rule, klass: ("expand_before_binary_op_rules" if klass.startswith(("lead=unnamed", "case=expand-target-rank", "ck="))
+                                           else rule["id"])
 
 
 # ---------------------------------------------------------------------------------------------------
@@ -307,14 +319,28 @@ def _hs_dims(rule):
             S.d_inter(1), S.D_DIMS, S.D_VI, S.d_opset(18, 13, 14, 21, 23),
         ]
     return [
-        Dim("bias", list(_HS_OFF)), Dim("cmin", ["exact", "tiny", "out-tol", "negzero"]),
-        Dim("cmax", list(_HS_OFF)), Dim("div", list(_HS_OFF)),
+        # which constant deviates from (3, 0, 6, 6) and how: inside the rule's own rtol=1e-4 / >=100x outside the
+        # comparison tolerance / special zeros
+        Dim("cdev", ["none", "bias:in-tol", "bias:out-tol", "cmin:tiny", "cmin:out-tol", "cmin:negzero",
+                     "cmax:in-tol", "cmax:out-tol", "div:in-tol", "div:out-tol", "all:in-tol"]),
         Dim("add_order", ["xb", "bx"]), Dim("mul_order", ["cx", "xc"]),
-        Dim("other", ["same-x", "other-tensor"]),
-        Dim("cshape", ["[]", "[1]-bias-div", "[1,1,1]-bias"]),
         Dim("dtype", ["f32", "f64"], ["f32", "f64", "f16"]),
+        Dim("other", ["same-x", "other-tensor"], cost=1),
+        Dim("cshape", ["[]", "[1]-bias-div", "[1,1,1]-bias"], cost=1),
         S.d_ck(4), S.d_inter(3), S.D_DIMS, S.D_VI, S.d_opset(18, 13, 14, 21, 23),
     ]
+
+
+def _hs_consts(p):
+    c = {"bias": "exact", "cmin": "exact", "cmax": "exact", "div": "exact"}
+    dev = p["cdev"]
+    if dev != "none":
+        who, how = dev.split(":")
+        for k in (list(c) if who == "all" else [who]):
+            if who == "all" and k == "cmin":
+                continue
+            c[k] = how
+    return c
 
 
 def _hs_val(base, klass, sign=1):
@@ -345,11 +371,12 @@ def _hs_build(p, rule):
     k = S.kinds(p, 4)   # bias, cmin, cmax, div
     bshape = {"[]": [], "[1]-bias-div": [1], "[1,1,1]-bias": [1, 1, 1]}[p["cshape"]]
     dshape = [1] if p["cshape"] == "[1]-bias-div" else []
-    bias = mb.const(np.full(bshape, _hs_val(3.0, p["bias"]), dtype=d), k[0], alts=[np.full(bshape, 1.0, dtype=d)])
-    cmin_v = {"exact": 0.0, "tiny": 1e-9, "out-tol": 1e-2, "negzero": -0.0}[p["cmin"]]
+    cc = _hs_consts(p)
+    bias = mb.const(np.full(bshape, _hs_val(3.0, cc["bias"]), dtype=d), k[0], alts=[np.full(bshape, 1.0, dtype=d)])
+    cmin_v = {"exact": 0.0, "tiny": 1e-9, "out-tol": 1e-2, "negzero": -0.0}[cc["cmin"]]
     cmin = mb.const(np.array(cmin_v, dtype=d), k[1], alts=[np.array(1.0, dtype=d)])
-    cmax = mb.const(np.array(_hs_val(6.0, p["cmax"], -1), dtype=d), k[2], alts=[np.array(4.0, dtype=d)])
-    div = mb.const(np.full(dshape, _hs_val(6.0, p["div"]), dtype=d), k[3], alts=[np.full(dshape, 3.0, dtype=d)])
+    cmax = mb.const(np.array(_hs_val(6.0, cc["cmax"], -1), dtype=d), k[2], alts=[np.array(4.0, dtype=d)])
+    div = mb.const(np.full(dshape, _hs_val(6.0, cc["div"]), dtype=d), k[3], alts=[np.full(dshape, 3.0, dtype=d)])
     add = mb.node("Add", [x, bias] if p["add_order"] == "xb" else [bias, x])
     clip = mb.node("Clip", [add, cmin, cmax])
     if name == "HardSwishFusion":
@@ -368,22 +395,24 @@ def _hs_near(p, rule):
     name = rule["id"].split("/")[1].split("~")[0]
     if name == "HardSwishFusionFromHardSigmoid":
         return p["alpha"] != "1/6" or p["beta"] != "0.5" or p["other"] != "same-x"
-    return any(p[k] != "exact" for k in ("bias", "cmax", "div")) or p["cmin"] not in ("exact", "negzero") \
-        or p["other"] != "same-x" or S.is_nonconst(p)
+    return p["cdev"] not in ("none", "cmin:negzero") or p["other"] != "same-x" or S.is_nonconst(p)
 
 
 def _hs_klass(nd, p, rule):
+    # add_order / mul_order only select which commuted copy of the rule can match: never part of the class
+    nd = {k: v for k, v in nd.items() if k not in ("add_order", "mul_order")}
     ks = set(nd)
-    tol = {k for k in ("bias", "cmax", "div") if nd.get(k) == "in-tol"}
-    if tol and ks <= {"bias", "cmax", "div", "dtype", "add_order", "mul_order"}:
+    if str(nd.get("cdev", "")).endswith(":in-tol") and ks <= {"cdev", "dtype"}:
         return "const=within-rule-rtol-1e-4"
-    if ks and ks <= {"alpha", "beta", "dtype", "mul_order"} and (nd.get("alpha") == "1/6+1e-6" or nd.get("beta") == "0.5+4e-6"):
+    if ks and ks <= {"alpha", "beta", "dtype"} and (nd.get("alpha") == "1/6+1e-6" or nd.get("beta") == "0.5+4e-6"):
         return "attr=within-np.isclose"
-    return None
+    return ",".join(f"{k}={v}" for k, v in nd.items()) or "default"
 
 
-S.register(Space("hardswish", _hs_dims, _hs_build, near=_hs_near, klass=_hs_klass, max_dev={"thorough": 1}),
-           prefixes=["fuse_hardswish_rules/"])
+_HS_SPACE = S.register(Space("hardswish", _hs_dims, _hs_build, near=_hs_near, klass=_hs_klass, max_dev={"thorough": 1}),
+                       prefixes=["fuse_hardswish_rules/"])
+# commuted copies (~2, ~3, ~4) of one rule class report under the class name
+_HS_SPACE.component = lambda rule, klass: rule["id"].split("~")[0]
 
 
 # ---------------------------------------------------------------------------------------------------
@@ -400,21 +429,27 @@ _GM_CASES = {
 _GM_C = {"[N]": [5], "[M,N]": [6, 5], "[1,N]": [1, 5], "[1]": [1], "[]": [], "[M,1]": [6, 1], "absent": None}
 
 
+_GM_ATTRS = {
+    "a1b1": {"alpha": 1.0, "beta": 1.0}, "no-alpha": {"beta": 1.0}, "no-beta": {"alpha": 1.0}, "none": {},
+    "alpha2": {"alpha": 2.0, "beta": 1.0}, "beta.5": {"alpha": 1.0, "beta": 0.5},
+    "alpha1+1e-6": {"alpha": 1 + 1e-6, "beta": 1.0}, "beta1+1e-6": {"alpha": 1.0, "beta": 1 + 1e-6},
+    "transB1": {"alpha": 1.0, "beta": 1.0, "transB": 1}, "transB0": {"alpha": 1.0, "beta": 1.0, "transB": 0},
+    "transA0": {"alpha": 1.0, "beta": 1.0, "transA": 0},
+}
+
+
 def _gm_dims(rule):
     return [
         Dim("case", list(_GM_CASES)),
         Dim("C", ["[N]", "[M,N]", "[1,N]", "[]", "[M,1]", "absent"], list(_GM_C)),
-        Dim("alpha", ["1.0", "absent", "2.0", "1+1e-6"]), Dim("beta", ["1.0", "absent", "0.5", "1+1e-6"]),
-        Dim("transA", ["absent", 0, 1]), Dim("transB", ["absent", 0, 1]),
-        Dim("dtype", ["f32"], ["f32", "f64"]),
+        Dim("attrs", list(_GM_ATTRS)),
+        Dim("dtype", ["f32", "f64"]),
         Dim("csrc", ["init", "input"], cost=1),
         S.d_ck(2), S.d_inter(2), S.D_DIMS, S.D_VI, S.d_opset(18, 13, 21, 23),
     ]
 
 
 def _gm_prune(p, rule):
-    if p["transA"] == 1:
-        return True    # would need a transposed reshape target; covered by transB
     return False
 
 
@@ -425,7 +460,8 @@ def _gm_build(p, rule):
     mb = MB(p["opset"])
     A = mb.inp("a", dt, S.shp(p, a))
     S.bind_like(mb, a)
-    bs = b[::-1] if p["transB"] == 1 else b
+    attrs = dict(_GM_ATTRS[p["attrs"]])
+    bs = b[::-1] if attrs.get("transB") == 1 else b
     B = mb.inp("b", dt, bs)
     k = S.kinds(p, 2)
     sa = mb.const(arr("i64", ra), k[0], alts=[arr("i64", ra)])
@@ -435,13 +471,6 @@ def _gm_build(p, rule):
     if cs is not None:
         cv = _w(dt, cs, salt=3, scale=1.0)
         ins.append(mb.const(cv, "init") if p["csrc"] == "init" else mb.inp("c", dt, cs))
-    attrs = {}
-    for nm in ("alpha", "beta"):
-        if p[nm] != "absent":
-            attrs[nm] = {"1.0": 1.0, "2.0": 2.0, "0.5": 0.5, "1+1e-6": 1 + 1e-6}[p[nm]]
-    for nm in ("transA", "transB"):
-        if p[nm] != "absent":
-            attrs[nm] = int(p[nm])
     gm = mb.node("Gemm", ins, **attrs)
     sc = mb.const(arr("i64", rc), k[1], alts=[arr("i64", [int(np.prod(rc))])])
     mb.out(mb.node("Reshape", [gm, sc]))
@@ -450,7 +479,7 @@ def _gm_build(p, rule):
 
 
 def _gm_near(p, rule):
-    return p["alpha"] != "1.0" or p["beta"] != "1.0" or p["transB"] == 1 or p["C"] in ("[M,N]", "[M,1]", "absent") \
+    return p["attrs"] not in ("a1b1", "transB0", "transA0") or p["C"] in ("[M,N]", "[M,1]", "absent") \
         or S.is_nonconst(p) or p["case"] == "regroup"
 
 
@@ -458,8 +487,6 @@ def _gm_klass(nd, p, rule):
     ks = set(nd)
     if "C" in ks and ks <= {"C", "case"}:
         return "C=" + nd["C"]
-    if "transB" in ks and ks <= {"transB", "C", "case"}:
-        return "transB=1"
     return None
 
 
@@ -535,7 +562,7 @@ def _ma_near(p, rule):
 
 def _ma_klass(nd, p, rule):
     if "C" in nd and set(nd) <= {"C", "csrc", "dtype"}:
-        return "C=" + nd["C"]
+        return "C=not-unidirectionally-broadcastable-to-[M,N]"
     return None
 
 
